@@ -85,6 +85,14 @@ CHECKS = {
          "Histories over up to 5 repository directories sharing one per-user config root: create, load, edit through the returned path, recursive copy, move, delete, plant malformed config-id contents (wrong length, non-hex, ../, absolute, trailing newline, non-UTF-8), plant legacy configs, orphan partial config dirs (crash between generate_config's steps). After every load: the config file is <root>/<20 hex>/config.toml; malformed ids are rejected without writing anything; a copy of a repo that still exists where jj last loaded it gets a different id with the original's content and leaves the original's file untouched; an unmoved repo keeps its id and content; two repos loaded where they are never share an id; nothing outside the root changes.",
          "Read-only copies cannot be simulated as root. Move+copy ambiguity (jj cannot tell which directory is the original once it moved) is deliberately not judged.",
          "§3.9, §4 C43"),
+ "C34": ("gitsim", "exploration", "deterministic simulation of two parties (jj transactions, external git ref/commit writes through gix) scheduled at operation granularity, three-value (jj / git / base) reference model",
+         "Seeded interleavings of jj bookmark set/delete, external git branch create/move/delete (also onto commits made by git alone), standalone import, standalone export and sync (import; export; second import) on one Git-backed repository. Oracle per bookmark from the base both sides last agreed on: an untouched side is never changed, a one-sided change is propagated, identical changes are kept, different changes yield a conflict containing both values (or the fast-forward), export never overwrites a git ref that moved behind jj's back, after a sync every non-conflicted bookmark equals its git ref and conflicted ones leave the ref alone, and a second import leaves the view identical.",
+         "Flat bookmark names only; with abandon-unreachable-commits only convergence and idempotence are asserted; the second party writes through gix rather than a git process.",
+         "§3.6, §4 C34"),
+ "C45": ("pushsim", "exploration", "deterministic simulation of two parties on a bare remote through the real jj binary and system git, party scheduling at operation granularity, remote refs read before/after every push",
+         "Seeded histories of jj bookmark create/move/delete, jj git push (--bookmark / --all / --deleted), emulated fetch, and another clone's fast-forward, forced and deleting pushes. After every jj push, per bookmark: if the remote branch was not where jj last recorded it, it must be exactly where the other clone left it and jj's record and local bookmark must be unchanged; branches not part of the push never move; otherwise the remote ends at the pushed target (or stays) and jj's record follows.",
+         "jj git fetch is emulated with git fetch + jj git import (system git 2.39 lacks fetch --porcelain). Operation granularity suffices because the lease expectation comes from the view loaded before the push and the compare-and-swap is git's.",
+         "§3.6, §4 C45"),
  "C21": ("tablesim", "exploration", "deterministic simulation: seeded baton scheduler over the table store's file-system primitives, crash and ineffective-lock faults, key/value reference model",
          "Seeded search over interleavings of 2-4 simulated processes (lock-less saves, locked saves, readers with reload) at the real TableStore's list/load/persist/add-head/remove-head/lock steps on tmpfs, with process crashes and ineffective locks; oracle is a map of completed saves (every completed save's entries present, later sequential save wins, heads never empty, reload does not change lookups). Sampling, not proof: the right level because the property quantifies over schedules the suite cannot control.",
          "Trusts: atomicity of readdir/create/unlink/rename as single steps; the hook points sit inside the primitives; HashMap order does not reach the event log (checked by the determinism sweep). Three known findings (known_findings.jsonl) are reported as KNOWN-FINDING and not as violations.",
@@ -92,6 +100,8 @@ CHECKS = {
 }
 
 ENGINES = {
+ "gitsim": ("sim/src/engines/gitsim.rs", "jj import/export vs. an external git party on one Git repository"),
+ "pushsim": ("sim/src/engines/pushsim.rs", "jj git push vs. another clone on a bare remote (real binaries)"),
  "tasksim": ("sim/src/engines/tasksim.rs", "tree merger under a seeded completion order of backend futures"),
  "hashsim": ("sim/src/engines/hashsim.rs", "content diff under harness-owned RandomState seeds and a weak hash"),
  "configsim": ("sim/src/engines/configsim.rs", "secure per-repo config under copy/move/delete histories and hostile ids"),
